@@ -70,7 +70,7 @@ CLAIMED = {
     "C08": ("DESIGN.md §5 C08",
             "Lean 4 theorems (coarsenBins_spec, cmap_monotone, rebin_correct via C20.getBinsize_truthful, prune_contract, no_group_split, coarsen_eq_spec for ANY contract-satisfying spans, coarsen_total, coarsen_compose, coarsen_merge_commute, coarsen_map_independent) + exhaustive (k, chunksize) differential correspondence with coarsen_cooler",
             "Proof: every new bin is the union of k consecutive old bins of one chromosome (last group shorter), re-binning through the new table equals the block map on fixed and variable tables, span boundaries never split a coarse row, and for any valid spans and any order-preserving map the stream concatenates to groupSum of the relabelled pixels; totals preserved; coarsening composes and commutes with merging. Real coarsen_cooler is run for k=2..n+1 and every chunk size 1..nnz+1 on small coolers, chains and merge/coarsen interleavings.",
-            "Trusted: Lean kernel; model tied by correspondence; real process pools observed for <=4 workers; pandas groupby primitives; non-sum aggregations by correspondence."),
+            "Trusted: Lean kernel; model tied by correspondence; real process pools observed for <=4 workers; pandas groupby primitives; any aggregation function covered by coarsen_agg_eq_spec on integer columns."),
     "C09": ("DESIGN.md §5 C09",
             "Lean 4 theorems (multseq_sorted_once, multseq_sound, multseq_refuses_iff(_bases), chain_to_base, zoom_level_eq_direct for ANY valid multiplier sequence via C08.coarsen_compose, zoom_layout, expandSpec_*) + differential correspondence with zoomify_cooler over target sets, one to three bases and CLI spellings",
             "Proof: the multiplier sequence is the strictly sorted union, is refused exactly when some requested resolution is not a multiple of any base, every predecessor chain ends at a base with the product of multipliers r/base, hence every derived level equals direct coarsening of a base by r/base whatever chain was used; bases are copies; the listing is exactly /resolutions/<r>. Real zoomify output is compared level by level (base levels byte-for-byte with their sources).",
@@ -82,7 +82,7 @@ CLAIMED = {
     "C15": ("DESIGN.md §5 C15",
             "Lean 4 theorems over a flat path->entry HDF5 file model with an invariant WF preserved by every operation (copy_reads_equal, copy_frame, mv_frame, mv_source_gone_partial, list_exact_history, isCooler_total, create_append_frame, create_w_replaces, recreate_replaces) + exhaustive short histories and seeded random histories against real files",
             "Proof: after a successful cp/ln/ln -s the destination reads what the source read; whatever the outcome only the destination file changes and nothing outside the destination's footprint (and the source for mv) changes; same-file mv removes the source; listing is exact for link-free files after any history; the recognition test is total; append-mode creation keeps all other collections and unrelated attributes, write mode replaces the file, re-creation replaces the collection. D4 (cross-file mv keeps the source) and D5 (external links listed under the target's path) are recorded findings proved as theorems about the model of the current code and matched through variant oracles.",
-            "Trusted: Lean kernel; model tied by correspondence; HDF5 link resolution/Group.copy are primitives of the file model; some h5py corners end a history without a verdict (counted). Partial: mv through links, list_exact with soft links, uri_slash (proved in C19's model)."),
+            "Trusted: Lean kernel; model tied by correspondence; HDF5 link resolution/Group.copy are primitives of the file model; some h5py corners end a history without a verdict (counted). Self-nesting mv/ln (repaired D26) refused with no effect."),
     "C04": ("DESIGN.md §5 C04",
             "Lean 4 theorems (extent_var_correct, extent_fixed_correct, extent_fixed_sound via C20.getBinsize_truthful, extent_empty_*, shortest_cover, gsFetch_correct, parseRegion_bounds, extent_table_correct, pixelsFetch_correct) + exhaustive all-regions differential correspondence on every small segmentation",
             "Proof: on every valid table, for every chromosome and every range 0<=s<e<=L the selected run is exactly the bins overlapping the range (never a bin of another chromosome), on the variable path by searchsorted lemmas and on the fixed path by uniformity, which a reported bin size guarantees; empty ranges select at most the bin containing the position; the pixel fetch is the index slice on the extent; GenomeSegmentation.fetch/bedslice select the same set. Every region of every small table is run through extent/offset/bins.fetch/pixels.fetch/matrix.fetch and judged by Lean.",
